@@ -21,6 +21,14 @@
 #include <signal.h>
 #endif 
 
+#ifdef CPPCMS_VERIF
+// Verification hook (guarded): lets a test harness widen scheduling windows between critical sections.
+extern "C" void cppcms_verif_yield(char const *site) __attribute__((weak));
+#define CPPCMS_VERIF_YIELD(site) do { if(cppcms_verif_yield) cppcms_verif_yield(site); } while(0)
+#else
+#define CPPCMS_VERIF_YIELD(site) do {} while(0)
+#endif
+
 namespace cppcms {
 namespace impl {
 	class thread_pool : public booster::noncopyable {
@@ -109,6 +117,7 @@ namespace impl {
 					}
 				}
 
+				CPPCMS_VERIF_YIELD("pool.worker.before_job");
 				if(job) {
 					try {
 						job();
